@@ -462,6 +462,12 @@ def run(ctx: core.Run):
         "ones; kinds: every single key and pair of kind keys x pixel_data_irrelevant, random larger subsets; fixtures: %d files. "
         "A tree case is non-trivial when it contains a divider record; distinct = distinct recipes."
         % (nmax, nb, mmax, len(fixtures)))
+    ctx.notes += [
+        "in Python a group is appended to its parent's list when pushed and filled while on the stack; the model appends the "
+        "finished group when it is popped (same list: nothing else is appended to the parent in between) - checked by correspondence",
+        "a never-closed group makes the constructor fail in _compute_clipping_layers (AttributeError on _record None), a closing "
+        "record at depth 0 fails the `assert not isinstance(layer, PSDImage)`; both are modelled and proved (parse_outcome)",
+    ]
     ctx.exhaustive = True
     ctx.model_coverage = {
         "modelled": ["_init loop (push/pop/append, assertion on popping the document, Artboard._move re-typing)",
